@@ -1,0 +1,12 @@
+//go:build verif
+
+package utils
+
+import (
+	db "github.com/tendermint/tm-db"
+)
+
+// VerifNewStorage builds a Storage over caller-supplied database handles.
+func VerifNewStorage(home string, config string, stateDB, eventDB, snapshotDB db.DB) *Storage {
+	return &Storage{eventDB: eventDB, stateDB: stateDB, snapshotDB: snapshotDB, minterConfig: config, minterHome: home}
+}
